@@ -30,8 +30,22 @@ package ggml
 //@ func readGGUFV1String
 //@   modifies nothing
 
+// C10 termination ("never fails to terminate"): the decoder only moves FORWARD in its input.
+// Every relative seek has a non-negative offset (a size taken from the file that is negative
+// as an int64 would move back and let the caller decode the same bytes again, for ever), and
+// the one loop whose count is not a range reads at least one byte per iteration.
+//@ extern func io.(ReadSeeker).Seek
+//@   requires whence == 1 ==> offset >= 0
+//@   modifies nothing
+//@   ensures result.1 == nil ==> result.0 >= 0
+//@ extern func io.(Seeker).Seek
+//@   requires whence == 1 ==> offset >= 0
+//@   modifies nothing
+//@   ensures result.1 == nil ==> result.0 >= 0
+
 //@ func discardGGUFString
 //@   modifies llm.scratch
+//@   loop 1 decreases size
 
 //@ func readGGUFString
 //@   modifies llm.scratch
